@@ -216,6 +216,14 @@ pub fn seed() -> u64 {
     std::env::var("VERIF_SEED").ok().and_then(|s| s.parse().ok()).unwrap_or(0)
 }
 
+pub fn rss_gb() -> f64 {
+    std::fs::read_to_string("/proc/self/statm").ok().and_then(|t| t.split_whitespace().nth(1).and_then(|x| x.parse::<f64>().ok())).map(|pages| pages * 4096.0 / 1e9).unwrap_or(0.0)
+}
+
+pub fn max_rss_gb() -> f64 {
+    std::env::var("VERIF_MAX_RSS_GB").ok().and_then(|s| s.parse().ok()).unwrap_or(16.0)
+}
+
 /// Wall-clock budget shared by the workers of one check.
 pub struct Budget {
     start: Instant,
@@ -232,6 +240,14 @@ impl Budget {
             return false;
         }
         if self.start.elapsed().as_secs_f64() > self.limit_s {
+            self.exhausted.store(true, Ordering::Relaxed);
+            return false;
+        }
+        // memory cap: the exploration stops growing (and reports itself incomplete) rather than
+        // being killed by the operating system
+        static CALLS: AtomicU64 = AtomicU64::new(0);
+        if CALLS.fetch_add(1, Ordering::Relaxed) % 64 == 0 && rss_gb() > max_rss_gb() {
+            eprintln!("NOTE: resident memory above {} GB: the exploration stops here and is reported as incomplete", max_rss_gb());
             self.exhausted.store(true, Ordering::Relaxed);
             return false;
         }
